@@ -214,8 +214,29 @@ def check_structure(core, parser, v, name, node, rng, rec):
             text = instance_text(v, name, node, c.name, 0)
             # place the target line at its structural position by rebuilding with a custom line
             text = instance_text_with_line(v, name, node, c.name, line)
-            for path in ('parse', 'traversal', 'add'):
+            for path in ('parse', 'traversal', 'add', 'assign-text', 'assign-text-custom-delimiters', 'copy-proxy'):
                 rec.evaluation((v, name, 'datatype', r.name, path))
+                if path in ('assign-text', 'assign-text-custom-delimiters', 'copy-proxy'):
+                    # a segment assigned as ER7 text (or copied from another message) is a child created by parsing
+                    ec = None
+                    ltxt = line
+                    if path == 'assign-text-custom-delimiters':
+                        ec = {'FIELD': '#', 'COMPONENT': '@', 'SUBCOMPONENT': '$', 'REPETITION': '%', 'ESCAPE': '*'}
+                        ltxt = line.replace('|', '#')
+                    m = core.Message(name, reference=prof, version=v, encoding_chars=ec)
+                    if path == 'copy-proxy':
+                        src = core.Message(name, reference=prof, version=v)
+                        setattr(src, c.name.lower(), ltxt)
+                        setattr(m, c.name.lower(), getattr(src, c.name.lower()))
+                    else:
+                        setattr(m, c.name.lower(), ltxt)
+                    m.msh.msh_7 = '20200101'
+                    f = getattr(getattr(m, c.name.lower()), r.name.lower())[0]
+                    rec.count('datatype_observations')
+                    if f.datatype != info['new']:
+                        rec.violation('profile-datatype-not-used:%s' % path, case, {'got': f.datatype}, row=row)
+                        break
+                    continue
                 if path == 'parse':
                     m = parser.parse_message(text, message_profile=prof)
                     f = getattr(getattr(m, c.name.lower()), r.name.lower())[0]
